@@ -253,7 +253,8 @@ def micro (guided : Bool) (status : String) (w : World σ) (t : Nat) (rel : Bool
       let onH := B.handlerFlag s
       let s := B.deliver s t x
       let w := setPub w q s
-      let w := if guided && !info.hidden then { w with obs := w.obs.eraseP (fun e => e.1 = q ∧ e.2.1 = x ∧ e.2.2.1 = v) } else w
+      -- an observed delivery that was used as the hint is consumed (an assumed forwarder delivery consumes nothing)
+      let w := if guided && hint == some x then { w with obs := w.obs.eraseP (fun e => e.1 = q ∧ e.2.1 = x ∧ e.2.2.1 = v) } else w
       let w := if info.hidden || B.posts s then w else { w with ev := (q, x, v, onH) :: w.ev }
       if B.posts s then (w, .cont)
       else ({ w with ctl := upd w.ctl t (.script q x v info.script :: .pubLoop q counted :: rest) }, .cont)
